@@ -175,6 +175,55 @@ theorem replicate_empty_count (n : Nat) : ∀ c ∈ List.replicate n Chunk.empty
   rw [(List.mem_replicate.mp hc).2]
   decide
 
+theorem fillInv_init (N V : Nat) (c0 : Chunk) (hN : N ≠ 0)
+    (hc0 : ({ nchunks := N, chunks := List.replicate N Chunk.empty, values := List.replicate V 0 } : Sparse).chunks[0]? = some c0) :
+    c0 = Chunk.empty ∧
+    FillInv N V { nchunks := N, chunks := (List.replicate N Chunk.empty).set 0 { c0 with offset := chunkCells * N }, values := List.replicate V 0 } 0 (chunkCells * N) := by
+  have hc0e : c0 = Chunk.empty := by
+    simp only [] at hc0
+    rw [List.getElem?_replicate] at hc0
+    split at hc0
+    · cases hc0; rfl
+    · cases hc0
+  refine ⟨hc0e, rfl, by simp only [List.length_set, List.length_replicate], by simp only [List.length_replicate], ?_, ?_, ?_, ?_⟩
+  · intro c hc
+    simp only [] at hc
+    rcases mem_set_cases _ _ _ _ hc with rfl | h
+    · rw [hc0e]; rfl
+    · rw [(List.mem_replicate.mp h).2]; rfl
+  · intro j hj c hc
+    simp only [] at hc
+    rw [List.getElem?_set_ne (by omega)] at hc
+    exact replicate_empty_count N c (List.mem_of_getElem? hc)
+  · intro c hc
+    simp only [] at hc
+    rcases mem_set_cases _ _ _ _ hc with rfl | h
+    · left; rw [hc0e]; show Chunk.empty.bits.count true = 0; decide
+    · left; exact replicate_empty_count N c h
+  · intro c hc
+    simp only [] at hc
+    rw [List.getElem?_set_self (by simp only [List.length_replicate]; omega)] at hc
+    cases hc
+    exact Nat.le_refl _
+
+/-- the sizes of what the constructor returns are the ones its first pass computed -/
+theorem sparseBuild_sizes (pairs : List (Nat × Nat)) (s : Sparse) (N V : Nat) (hb : sparseBuild pairs = .ok (some s))
+    (he : sparseExtent pairs (-1) 0 0 = some (N, V)) (hN : N ≠ 0) : s.nchunks = N ∧ s.values.length = V := by
+  unfold sparseBuild at hb
+  rw [he] at hb
+  simp only [] at hb
+  rw [if_neg hN] at hb
+  simp only [bind, Except.bind, pure, Except.pure] at hb
+  obtain ⟨c0, hc0, e0⟩ := updChunk_ok { nchunks := N, chunks := List.replicate N Chunk.empty, values := List.replicate V 0 } 0
+    (fun c => { c with offset := chunkCells * N }) (by simp only [List.length_replicate]; omega)
+  rw [e0] at hb
+  simp only [] at hb
+  obtain ⟨_, hinv⟩ := fillInv_init N V c0 hN hc0
+  obtain ⟨s', ci', vi', es, hi', _⟩ := sparseFill_ok pairs (-1) 0 0 N V _ 0 (chunkCells * N) he hinv (by omega) (by omega) (fun _ _ _ => trivial)
+  rw [es] at hb
+  cases hb
+  exact ⟨hi'.n, hi'.vl⟩
+
 /-- **`sparse::sparse(first, last)`** for every sequence of (key, value) pairs: both passes stay inside the one allocation whose size
 the first pass computed -/
 theorem sparseBuild_total (pairs : List (Nat × Nat)) : ∃ r, sparseBuild pairs = .ok r ∧ ∀ s, r = some s → SparseOK s := by
